@@ -1,7 +1,7 @@
 """Property -> obligations registry.  Floors are instance counts confirmed by hand on the pinned tree."""
 import json, os
 from .core import FLAVOURS, DIRECTED, UNDIRECTED, SYNC, PLAIN
-from . import rules_kernel as rk, dispatch as dp, rules_guard as rg, rules_edge as re_, rules_bt as rb, rules_misc as rm, rules_c16 as r16
+from . import rules_kernel as rk, dispatch as dp, rules_guard as rg, rules_edge as re_, rules_bt as rb, rules_misc as rm, rules_c16 as r16, rules_own as ro, rules_container as rc, rules_serde as rs, rules_scc as rscc
 
 ALLF = ('Bfs', 'Dfs', 'Pfs', 'Order')
 HERE = os.path.dirname(os.path.abspath(__file__))
@@ -173,5 +173,67 @@ PROPS['C16'] = dict(
     technique='static analysis: compile-fail / compile-pass witnesses decided by rustc\'s trait solver against the current tree\'s metadata, plus HIR scan of unsafe items',
     level_text='proof: each obligation is a generic (for all K,N,E) trait obligation discharged or refuted by the compiler; negative witnesses are paired with compiling twins',
     trusted=['rustc trait solver / auto-trait rules'],
+)
+
+PROPS['C19'] = dict(
+    rules=[_r('OWN1', ro.own1, FLAVOURS), _r('OWN2', ro.own2, FLAVOURS), ('OWN3', lambda ctx: ro.own3(ctx)), _r('OWN4', ro.own4, FLAVOURS),
+           _r('ENC', re_.enc, FLAVOURS, only=('ENC-d', 'ENC-new')), _r('P1', re_.p1_connect, FLAVOURS), _r('IT2', rg.it2, FLAVOURS)],
+    explanation='Type-level ownership graph: the adjacency lists own only weak peer references (OWN1: structured type walk; the only strong edge is Node -> allocation), every type a '
+                'public signature hands out (Edge, Path, Graph, iterator items, lookups) holds strong Node handles and no public signature mentions a weak one (OWN2), no '
+                'forget/ManuallyDrop/leak/raw-pointer escape hatch and no unsafe code (OWN3, zero-count scan with a positive-control fixture compiled on every run), connect stores '
+                'downgrade(node), iterators and lookups return upgrade(..) of the stored peer, and a Node is only ever built by new/clone/upgrade (OWN4, ENC-d, IT2). In safe Rust a value '
+                'is dropped exactly once and never while owned, so leaks need a strong cycle or an escape hatch: both are excluded for library types whatever the graph shape.',
+    decides='absence of strong reference cycles among library types and of leak/raw escape hatches; strength of every handle handed out',
+    does_not_decide='cycles a user builds through the payload types N/E; Rc/Arc/Weak themselves',
+    assumptions=['Rust ownership: safe code drops each value exactly once', 'std Rc/Arc/Weak are correct'],
+)
+
+PROPS['C18'] = dict(
+    rules=[_r('MAP', rc.map_rules, FLAVOURS), _r('VIEW', rc.view_rules, FLAVOURS), _r('DOT', rc.dot_rules, FLAVOURS), _r('OBS', re_.obs, FLAVOURS),
+           _r('ENC', re_.enc, FLAVOURS, only=('ENC-d',))],
+    explanation='Graph is one HashMap<K, Node> field; every container method is the expected delegation (contains/len/is_empty/get+clone/remove/iter/to_vec/Index), insert mutates only on the '
+                '"key absent" branch with (clone(key(node)), clone(node)) and returns false/true accordingly, nothing else mutates or replaces the map (MAP); roots/leaves/orphans filter '
+                'the members by exactly is_root/is_leaf/is_orphan, un-negated (VIEW, with the observers\' list footprints from OBS); the DOT exports write one node statement per member and '
+                'one "u -> v" statement per edge of the member\'s iterator, arguments in that order, loops run to exhaustion, each attribute callback is called once per graph / member / '
+                'edge with the right arguments and its text goes into the same statement (DOT); handles handed out are clones of the stored handle, i.e. the same allocation (ENC-d).',
+    decides='delegation shape, branch placement and argument provenance of every container method and DOT writer',
+    does_not_decide='HashMap semantics; the literal DOT syntax beyond the presence and order of the placeholders',
+    assumptions=STD,
+)
+
+PROPS['C12'] = dict(
+    rules=[_r('SER', rs.ser_rules, FLAVOURS), _r('P1', re_.p1_connect, FLAVOURS), _r('ENC', re_.enc, FLAVOURS, only=('ENC-b',)), _r('ORIENT', re_.orient, FLAVOURS)],
+    explanation='Writer/reader agreement on all four flavours: the two serialize_element::<T> calls and the two next_element::<T> calls carry the same element types in the same order '
+                'inside a 2-tuple (SER1); the writer loops over all members and, per member, over an edge iterator whose list footprint is exactly the OUT list, so each edge (stored as '
+                'one OUT half) is written exactly once (SER2); the writer pushes (key(u), key(v), e) and the reader connects (get(t.0), get(t.1), t.2) (SER3); both sides use push and '
+                'forward loops with no reordering call, and connect appends (P1, ENC-b), so each node\'s outgoing order survives (SER4); nodes are written (key, value) once per member and '
+                'rebuilt with insert(Node::new(t.0, t.1)) before any edge is connected (SER5).',
+    decides='multiplicity, orientation, order and shape agreement of writer and reader',
+    does_not_decide='serde / serde_json / serde_cbor themselves and the Serialize/Deserialize impls of K, N, E',
+    assumptions=STD + ['serde data formats round-trip the element types'],
+)
+PROPS['C13'] = dict(
+    rules=[_r('DE', rs.de_rules, FLAVOURS), _r('G3', rg.g3, FLAVOURS, only=('G3',)), _r('MAP', rc.map_rules, FLAVOURS), _r('P1', re_.p1_connect, FLAVOURS)],
+    explanation='On visit_seq and everything it calls in-crate: each connect is dominated by the success outcome of both endpoint lookups and a failed lookup returns Err(custom(..)) with no '
+                'connect on the way (DE1); no unwrap/expect/panic/indexing/arithmetic assert in deserialize, visit_seq or their closures (DE2); the graph is built only through '
+                'Graph::insert and Node::connect with arguments taken from document elements (DE3), so the mirror/symmetry invariants follow from C01/C02 (P1) and repeated keys are '
+                'refused by insert (MAP); a missing element leaves the list empty and both lists are walked by plain for-loops (DE4); no conflicting re-borrow on the insert/connect '
+                'sequence even when both endpoints are the same node (G3).',
+    decides='absence of panic sites and of unguarded connects in the reader, and that only the two invariant-preserving builders are used',
+    does_not_decide='panics or hangs inside the format crates; allocation failure on huge documents',
+    assumptions=STD + ['serde format crates do not panic on malformed input'],
+)
+
+PROPS['C11'] = dict(
+    rules=[_r('SCC', rscc.scc_rules, DIRECTED)] + kernel_pack(('Order',), DIRECTED) + [_r('ORD1', rk.ord1, DIRECTED), _r('ORD2', rm.ord2, DIRECTED), _r('TR1', dp.tr1, DIRECTED, ('Order',)),
+           _r('TR2', dp.tr2, DIRECTED), _r('METHOD', rk.method, DIRECTED), _r('MAP', rc.map_rules, DIRECTED, only=('MAP',))],
+    explanation='scc() as a Kosaraju composition schema: the first pass loops over all members and appends, for every unvisited one, the complete filtered postorder (not transposed, filter '
+                'rejecting edges into visited nodes) to both the visited set and the ordering (SCC1); the second pass pops the ordering from the back, skips assigned nodes, and takes as '
+                'component the result of a transposed, filtered *reachable-set* search (Order::search_nodes) from the popped node, marking every element assigned (SCC2: a path or cycle '
+                'search in that position is a violation). The searches it composes are checked for the same flavours: true postorder (ORD1/ORD2), direction (TR0/TR1/TR2), filter '
+                'semantics and exhaustive discovery (DISC/EXH/METHOD).',
+    decides='the composition schema and the properties of the composed searches',
+    does_not_decide='Kosaraju\'s theorem; independence from hash order follows from it (any DFS forest works)',
+    assumptions=STD,
 )
 NOT_APPLICABLE = {}
